@@ -49,6 +49,10 @@ func main() {
 		os.Stdout.WriteString(c03.Solo(in))
 		return
 	}
+	if len(os.Args) > 1 && os.Args[1] == "-devmodels" {
+		devModels()
+		return
+	}
 	if len(os.Args) > 2 && os.Args[1] == "-dev" {
 		zzsimrt.Configure(len(zzsimrt.SiteTab))
 		devMain(os.Args[2:])
